@@ -9,6 +9,7 @@
  *       KSI_extendSignature(ctx, sig, &ext): the publications file is fetched through file://, PKI-verified against the anchors
  *       (ca | other | none: PEM files in $VERIF_PKI_DIR) under the constraints (oid:hexvalue[,…] | -), its nearest publication
  *       is the target                                  => as x
+ *   vwr <ver> <key-hex> <reply-hex> <aggrTime> <pubTime|-> [label]   KSI_ExtendResp_verifyWithRequest on the authenticated reply => G<status> | V<status>
  *   compat <calA-hex> <calB-hex>                     KSI_CalendarHashChain_verifyCompatibilityTo(A, B)  => K<status>
  */
 #include "common.h"
@@ -93,6 +94,26 @@ done:
 		KSI_CTX_free(ctx);
 		unlink(uri + 7);
 		free(raw); free(key0); free(key); free(reply);
+	} else if (n >= 6 && !strcmp(w[0], "vwr")) {
+		/* vwr <ver> <key-hex> <reply-hex> <aggrTime> <pubTime|-> [label]: the request a new context sends (id 1) for these times, the reply
+		 * authenticated by KSI_RequestHandle_getExtendResponse, then KSI_ExtendResp_verifyWithRequest itself  => G<status> | V<status> */
+		KSI_CTX *ctx = NULL; KSI_ExtendReq *req = NULL; KSI_ExtendResp *resp = NULL; KSI_RequestHandle *h = NULL; KSI_Integer *a = NULL, *pt = NULL;
+		size_t kl, rn; int r; unsigned char *key0 = unhex(w[2], &kl), *reply = unhex(w[3], &rn); char *key = malloc(kl + 1), uri[96];
+		memcpy(key, key0, kl); key[kl] = 0;
+		KSI_CTX_new(&ctx);
+		snprintf(uri, sizeof(uri), "file://%s", tmp_with(reply, rn));
+		KSI_CTX_setOption(ctx, KSI_OPT_EXT_PDU_VER, (void *)(size_t)atoi(w[1]));
+		KSI_CTX_setExtender(ctx, uri, "anon", key);
+		KSI_ExtendReq_new(ctx, &req);
+		KSI_Integer_new(ctx, strtoull(w[4], NULL, 10), &a); KSI_ExtendReq_setAggregationTime(req, a);
+		if (strcmp(w[5], "-")) { KSI_Integer_new(ctx, strtoull(w[5], NULL, 10), &pt); KSI_ExtendReq_setPublicationTime(req, pt); }
+		r = KSI_sendExtendRequest(ctx, req, &h);
+		if (r == KSI_OK) r = KSI_RequestHandle_perform(h);
+		if (r == KSI_OK) r = KSI_RequestHandle_getExtendResponse(h, &resp);
+		if (r != KSI_OK) printf("G%d", r);
+		else printf("V%d", KSI_ExtendResp_verifyWithRequest(resp, req));
+		KSI_ExtendResp_free(resp); KSI_RequestHandle_free(h); KSI_ExtendReq_free(req); KSI_CTX_free(ctx);
+		free(key); free(key0); free(reply);
 	} else if (n >= 8 && !strcmp(w[0], "xs")) {
 		KSI_CTX *ctx = NULL; KSI_Signature *sig = NULL, *ext = NULL; KSI_PKITruststore *pki = NULL; size_t len, kl, rn, pl; int r, nc = 0;
 		unsigned char *raw = unhex(w[1], &len), *key0 = unhex(w[3], &kl), *reply = unhex(w[4], &rn), *pfb = unhex(w[5], &pl);
